@@ -16,7 +16,7 @@ import (
 
 func init() {
 	register(&Prop{ID: "C10", Run: runC10, MinNontrivial: 500,
-		Rule:        "cases = LogoutRequest/LogoutResponse records with 0-2 injected faults (Version, Destination incl. near-misses, Issuer absent/other/empty, Status absent/StatusCode absent/non-Success/second-level Success) x signing state (unsigned, trusted, untrusted, trusted cert + foreign key, tampered after signing, signature relocated into a child, genuine signed message wrapped by evil content with same or fresh ID) x raw/DEFLATE x skip on/off x issuer configured or not, plus kind confusion (SSO Response, AuthnRequest, the other logout kind, the SP's own output) and direct ValidateDecodedLogout* calls on hand-built structs; oracle: accept iff reference checks pass and (no root signature or it verifies), flag iff not skip and root signature verified, flagged => returned fields equal the signed record, typed error names a violated check, foreign kinds never accepted; non-trivial = document parsed and reached the checks; distinct by parameter tuple; configured SLO / issuer values with metacharacters and the same near-miss values; unsigned messages against a nil certificate store; unused namespace declarations spelled like the checked attributes added to a signed root tag (state nsdecl-added); Version spellings; Issuer Format attributes",
+		Rule:        "cases = LogoutRequest/LogoutResponse records with 0-2 injected faults (Version, Destination incl. near-misses, Issuer absent/other/empty, Status absent/StatusCode absent/non-Success/second-level Success) x signing state (unsigned, trusted, untrusted, trusted cert + foreign key, tampered after signing, signature relocated into a child, genuine signed message wrapped by evil content with same or fresh ID) x raw/DEFLATE x skip on/off x issuer configured or not, plus kind confusion (SSO Response, AuthnRequest, the other logout kind, the SP's own output) and direct ValidateDecodedLogout* calls on hand-built structs; oracle: accept iff reference checks pass and (no root signature or it verifies), flag iff not skip and root signature verified, flagged => returned fields equal the signed record, typed error names a violated check, foreign kinds never accepted; non-trivial = document parsed and reached the checks; distinct by parameter tuple; configured SLO / issuer values with metacharacters and the same near-miss values; unsigned messages against a nil certificate store; unused namespace declarations spelled like the checked attributes added to a signed root tag (state nsdecl-added); a second ID attribute written in front of the real one on a signed root (tampered); Version spellings; Issuer Format attributes",
 		Assumptions: []string{"for a relocated signature only the implication 'flagged => fields equal the signed record' is asserted (goxmldsig accepts an enveloped signature anywhere below the root)"}})
 }
 
@@ -172,6 +172,9 @@ type LogoutCase struct {
 	Fault     []string
 	Signer    *sim.Cert
 	Desc      string
+	// Malformed: the document is not well-formed XML (an attribute written twice); which of the readings a lenient
+	// parser picks is undefined, so the only requirement is that a signed message altered this way is not honoured.
+	Malformed bool
 }
 
 // GenLogoutCase draws a logout presentation.
@@ -277,7 +280,21 @@ func GenLogoutCase(r *rand.Rand, w *World, isResp bool) (*LogoutCase, error) {
 			return nil, err
 		}
 		ev := *l
-		switch r.IntN(3) {
+		switch r.IntN(4) {
+		case 3:
+			// a second ID attribute written in front of the real one (not well-formed, but parsers differ on it): whatever
+			// the reader makes of it, the signed root was altered
+			x = sim.DocString(d)
+			if i := strings.Index(x, " ID=\""); i >= 0 {
+				x = x[:i] + ` ID="_evil"` + x[i:]
+			}
+			ev.ID = sim.S("_evil")
+			lc.Presented = &ev
+			lc.Signed = nil
+			lc.Malformed = true
+			lc.Doc = x
+			lc.Desc = fmt.Sprintf("resp=%v state=%s(dup-id-in-front) faults=%v signer=%s sig=%s", isResp, lc.State, lc.Fault, lc.Signer.Key.Name, l.Sig)
+			return lc, nil
 		case 0:
 			if at := d.Root().SelectAttr("Destination"); at != nil {
 				at.Value = c10SLO
@@ -356,7 +373,27 @@ func GenLogoutCase(r *rand.Rand, w *World, isResp bool) (*LogoutCase, error) {
 	}
 	lc.Doc = x
 	lc.Desc = fmt.Sprintf("resp=%v state=%s faults=%v signer=%s sig=%s", isResp, lc.State, lc.Fault, lc.Signer.Key.Name, l.Sig)
+	if rootRepeatsAttr(x) {
+		lc.Malformed = true // (the shadow-attribute edits leave the original attribute in place when its value was written escaped)
+	}
 	return lc, nil
+}
+
+// rootRepeatsAttr reports whether the root start tag of x carries an attribute name twice.
+func rootRepeatsAttr(x string) bool {
+	d := etree.NewDocument()
+	d.ReadSettings.PreserveDuplicateAttrs = true
+	if d.ReadFromString(x) != nil || d.Root() == nil {
+		return false
+	}
+	seen := map[string]bool{}
+	for _, a := range d.Root().Attr {
+		if seen[a.FullKey()] {
+			return true
+		}
+		seen[a.FullKey()] = true
+	}
+	return false
 }
 
 func runC10(c *mon.Ctx) {
@@ -442,6 +479,16 @@ func runC10(c *mon.Ctx) {
 				cs.Outcome("relocated-accepted")
 			} else {
 				cs.Outcome("relocated-rejected")
+			}
+		case lc.Malformed:
+			switch {
+			case gerr != nil:
+				cs.Outcome("malformed-rejected")
+			case !skip:
+				cs.Outcome("bad-signature-accepted")
+				cs.Violation("bad-signature-accepted:"+lc.State+"-repeated-attribute", "a signed logout message whose root was given a second ID attribute after signing was accepted (flag=%v)", got.flag)
+			default:
+				cs.Outcome("malformed-accepted-under-skip")
 			}
 		case lc.State == "nsdecl-added" && !skip:
 			if gerr == nil {
